@@ -221,6 +221,46 @@ fn busy_poll_case(seed: u64, trace: bool) -> CaseOut {
     out
 }
 
+/// Peers that sit at a small stream-count limit and whose readers give streams up instead of
+/// reading them: many short streams, most of them reset or finished within their first packet, so
+/// that the reader's stop() meets a stream whose final size is already known, with nothing else in
+/// flight that could carry the new credit by accident.
+fn stream_credit_case(seed: u64, trace: bool) -> CaseOut {
+    let mut k = knobs(seed, Lane::Null);
+    k.max_stream_len = 600;
+    k.max_streams = 2;
+    k.n_clients = 1;
+    k.migration = false;
+    k.ops = false;
+    k.faults = false;
+    k.datagrams = false;
+    k.mtu_changes = false;
+    let mut h = Honest::random(seed, &k);
+    h.retry_lifetime_ms = 10_000_000;
+    let mut r = Rng::new(seed ^ 0x5C);
+    h.net.fault_until_ns = 0;
+    for t in h.cli_t.iter_mut().chain([&mut h.srv_t]) {
+        t.max_bidi = 1 + r.below(3);
+        t.max_uni = 1 + r.below(3);
+        t.keep_alive_ms = None;
+    }
+    for a in h.cli_app.iter_mut().chain([&mut h.srv_app]) {
+        a.dgram_count = 0;
+        a.read_enabled = true;
+        a.stop_pct = *r.pick(&[60, 100]);
+        a.respond_max = a.respond_max.min(300);
+        a.plans.clear();
+        for _ in 0..4 + r.usize(9) {
+            let len = r.below(600);
+            let end = if r.chance(60) { crate::app::EndMode::ResetAt { at: r.below(len + 1).min(r.below(3) * 200), code: r.below(1000) } } else { crate::app::EndMode::Finish };
+            a.plans.push(crate::app::StreamPlan { bidi: r.chance(35), len, chunk: 1200, use_write_chunks: r.bool(), end, prio: 0 });
+        }
+    }
+    let mut out = run_judged(&h, trace);
+    out.nontrivial = out.cnt.get("app.blind_stop") > 0;
+    out
+}
+
 fn run_judged(h: &Honest, trace: bool) -> CaseOut {
     let mut ran = run_honest(h, trace, 60_000, T_F + BOUND_NS);
     judge(h, &mut ran);
@@ -277,6 +317,8 @@ pub fn run(ctx: &Ctx) -> i32 {
     run_group(ctx, &mut rep, &g, |idx, _, trace| enum_case(idx, kb, Lane::Null, trace));
     let g = Group { name: "random-null", cases: ctx.tier.pick(1500, 120_000), budget_s: ctx.tier.pick(45.0, 720.0), exhaustive: false };
     run_group(ctx, &mut rep, &g, |_, seed, trace| random_case(seed, Lane::Null, trace));
+    let g = Group { name: "stream-credit", cases: ctx.tier.pick(1500, 60_000), budget_s: ctx.tier.pick(15.0, 150.0), exhaustive: false };
+    run_group(ctx, &mut rep, &g, |_, seed, trace| stream_credit_case(seed, trace));
     let g = Group { name: "busy-poll", cases: ctx.tier.pick(200, 20_000), budget_s: ctx.tier.pick(20.0, 200.0), exhaustive: false };
     run_group(ctx, &mut rep, &g, |_, seed, trace| busy_poll_case(seed, trace));
     #[cfg(feature = "real")]
